@@ -3,6 +3,7 @@ import numpy as np
 import shim  # noqa: F401
 import cola
 from cola.ops import Dense
+from cola.linalg.inverse.cg import cg
 import core
 import c12_lib as L
 
@@ -38,6 +39,31 @@ def findings():
         present, got = True, "raised %s: %s" % (type(e).__name__, e)
     out.append(dict(flag="cg_x0_unscaled", present=present, witness=witness, got=got, expected="[2.111..., 2.222...] and [1, 0]",
                     what="x0 is not divided by the column norm ||b|| while b is: for x0 != 0 and ||b|| != 1 the k-step iterate is the Krylov optimum started from ||b||*x0, not from x0 (max_iters=0 returns ||b||*x0)"))
+    # the documented 1-D x0 next to a right-hand side that arrives as (n, 1): inv(A, CG(x0=...)) @ b, solve(A, b, CG(x0=...))
+    A3 = np.array([[2.0, 1.0, 0.0], [1.0, 3.0, 1.0], [0.0, 1.0, 4.0]])
+    b3 = np.array([1.0, 2.0, 3.0])
+    try:
+        x = np.asarray(cola.linalg.solve(cola.PSD(Dense(A3)), b3, cola.linalg.CG(x0=np.ones(3))))
+        present = bool(x.shape != (3,) or np.linalg.norm(A3 @ x - b3) > 1e-4)
+        got = "x=%s" % x.tolist()
+    except Exception as e:  # noqa
+        present, got = True, "raised %s: %s" % (type(e).__name__, str(e)[:80])
+    out.append(dict(flag="iterative_x0_vector", present=present, witness="solve(PSD(Dense([[2,1,0],[1,3,1],[0,1,4]])), [1,2,3], CG(x0=ones(3)))", got=got,
+                    expected="[0.3333, 0.3333, 0.6667]",
+                    what="inv(A, CG(x0=v)) @ b / solve(A, b, CG(x0=v)) with the documented 1-D guess v fails: the lazy inverse hands cg an (n,1) right-hand side and cg reshapes x0 only for a 1-D one (AssertionError)"))
+    # do_safe_div substitutes 1e-40, a float32 subnormal, for a vanishing denominator
+    try:
+        with np.errstate(all="ignore"):
+            xc, _ = cg(cola.PSD(Dense(np.array([[4]], dtype=np.complex64))), np.array([[2, 0]], dtype=np.complex64))
+            xf, _ = cg(cola.PSD(Dense(np.array([[4, 1], [1, 3]], dtype=np.float32))), np.array([[2, 0], [1, 0]], dtype=np.float32), x0=np.ones((2, 2), dtype=np.float32))
+        xc, xf = np.asarray(xc), np.asarray(xf)
+        present = bool(not np.all(np.isfinite(xc)) or not np.all(np.isfinite(xf)) or xc[0, 1] != 0 or np.any(xf[:, 1] != 0))
+        got = "complex64 zero column: %s; float32 zero column with x0=1: %s" % (xc[:, 1].tolist(), xf[:, 1].tolist())
+    except Exception as e:  # noqa
+        present, got = True, "raised %s: %s" % (type(e).__name__, str(e)[:80])
+    out.append(dict(flag="cg_safe_div_subnormal", present=present, witness="cg(PSD(Dense([[4]], complex64)), [[2,0]]) and cg(PSD(Dense([[4,1],[1,3]], float32)), [[2,0],[1,0]], x0=ones((2,2)))", got=got,
+                    expected="the zero right-hand-side column is returned as exactly 0 in every dtype",
+                    what="do_safe_div replaces a vanishing denominator by 1e-40, a float32 subnormal: a zero right-hand-side column is returned as NaN in complex64 (0/1e-40 overflows in the complex division) and, with x0 != 0, in float32 (x0/1e-40 overflows)"))
     return out
 
 
@@ -63,7 +89,7 @@ def gen_system(rs, ctx, sid, nmax, kmax_exp, flag_present, region=False):
         # absolute terms (the code normalises every column: only an absolute threshold could notice)
         spread = "12 orders, absolute 1e-14..1e8"
         B = B * 10.0 ** (rs.uniform(-6, 6, size=(1, nc)) + rs.uniform(-8, 2))
-        if nc > 1 and rs.random() < 0.3 and x0kind not in ("random", "warm"):
+        if nc > 1 and rs.random() < 0.3 and (x0kind not in ("random", "warm") or not flag_present):
             B[:, int(rs.integers(0, nc))] = 0
             spread = "zero column"
         elif nc == 1 and rs.random() < 0.06:
@@ -137,6 +163,8 @@ def core_json(x):
 def run(ctx):
     fnd = findings()
     flag = any(f["flag"] == "cg_x0_unscaled" and f["present"] for f in fnd)
+    x0vec_ok = not any(f["flag"] == "iterative_x0_vector" and f["present"] for f in fnd)
+    div_small = any(f["flag"] == "cg_safe_div_subnormal" and f["present"] for f in fnd)
     rs = L.np_rng(ctx)
     n_sys = ctx.budget(140, 500)
     n_stop = ctx.budget(240, 900)
@@ -167,6 +195,8 @@ def run(ctx):
         s = gen_system(rs, ctx, sid, min(nmax, 10), 2, flag, region=True)
         sid += 1
         cases.append(dict(s, tol=float(10 ** rs.uniform(-12, -1)), max_iters=int(rs.integers(0, 2 * s["n"] + 1)), stream="x0_region"))
+    for c in cases:
+        c["div_small"] = div_small
     obs = [L.run_impl(c) for c in cases]
     for c, o in zip(cases, obs):        # the state one step before the exit, for the "did not stop too late" clause
         if c["stream"] == "stopping" and o.get("ok") and o["steps"] >= 1:
@@ -178,7 +208,7 @@ def run(ctx):
     margin_ties = sum(1 for o, st in zip(obs, stab) if o.get("ok") and st["same_steps"] and st["dev_x"] <= 1e-12 and st["dev_r"] <= 1e-10 and st["min_margin"] < 1e-5)
     items = [(cases[i], obs[i]) for i in stable]
     mism = []
-    failing, near, err = L.eval_in_coq("c12", items, flag)
+    failing, near, err = L.eval_in_coq("c12", items, flag, div_small=div_small)
     if err:
         mism.append(dict(oracle_fail=False, harness_error=err))
         failing, near = [], []
@@ -211,7 +241,7 @@ def run(ctx):
         B = (rs.normal(size=(n, nc)) + (1j * rs.normal(size=(n, nc)) if cplx else 0)) * 10.0 ** (rs.uniform(-6, 6, size=(1, nc)) + rs.uniform(-8, 2))
         c = dict(A=A, Pop=Pop, Pd=Pd, B=B, X0=None, cplx=cplx, sys_id=sid, kappa=kappa, kind=kind, pk=pk, x0kind="none",
                  spread="12 orders, absolute 1e-14..1e8", n=n, nc=nc, vector_api=bool(nc == 1), tol=float(10 ** rs.uniform(-12, -1)),
-                 max_iters=int(rs.integers(0, 2 * n + 1)), stream="large")
+                 max_iters=int(rs.integers(0, 2 * n + 1)), stream="large", div_small=div_small)
         o = L.run_impl(c)
         st = L.stability(c, x0_unscaled=flag) if n <= 80 else dict(same_steps=False, dev_x=np.inf, sens_A=np.inf)
         c["check_opt"] = bool(st["same_steps"] and st["sens_A"] <= 1e-9)
@@ -246,11 +276,54 @@ def run(ctx):
         if not okc and (exact or stable_h):
             mism.append(dict(oracle_fail=True, case=describe(c2, o2), failed_clauses=["cg(alpha*b) != alpha*cg(b) for alpha=%r (x0=0)" % (alpha,)], model_disagrees=False))
         # same call through inv(A, CG(...)) @ b
-        if c["X0"] is None or not c["vector_api"]:
+        if c["X0"] is None or not c["vector_api"] or x0vec_ok:
             o3 = L.run_impl(c, via_inv=True)
             invpath += 1
             if not (o3.get("ok") and np.array_equal(o3["x"], o1["x"]) and o3["iterations"] == o1["iterations"] and o3["steps"] == o1["steps"]):
                 mism.append(dict(oracle_fail=True, case=describe(c, o3), failed_clauses=["inv(A, CG(...)) @ b differs from cg(A, b, ...)"], model_disagrees=False))
+    # the documented 1-D guess through the lazy inverse (only once that path works), non-zero guesses included
+    x0vec = 0
+    if x0vec_ok:
+        for c, o in [(c, o) for c, o in zip(cases, obs) if c["vector_api"] and c["X0"] is not None and c["x0kind"] in ("random", "warm") and o.get("ok")][:ctx.budget(60, 400)]:
+            o3 = L.run_impl(c, via_inv=True)
+            x0vec += 1
+            if not (o3.get("ok") and np.array_equal(o3["x"], o["x"]) and o3["iterations"] == o["iterations"] and o3["steps"] == o["steps"]):
+                mism.append(dict(oracle_fail=True, case=describe(c, o3), failed_clauses=["inv(A, CG(x0=1-D guess)) @ b differs from cg(A, b, x0=...)"], model_disagrees=False))
+    # float32 / complex64: zero columns come back as exact zeros, everything finite, the others solved to single precision
+    # (zero columns only once do_safe_div no longer divides by a float32 subnormal)
+    lowprec = 0
+    for _ in range(ctx.budget(40, 300)):
+        n = int(rs.integers(1, 9))
+        dt = [np.float32, np.complex64][int(rs.integers(0, 2))]
+        cplx = dt is np.complex64
+        A = L.make_spd(rs, n, cplx, float(10 ** rs.uniform(0, 1.5)), "uniform").astype(dt)
+        nc = int(rs.integers(1, 4))
+        B = (rs.normal(size=(n, nc)) + (1j * rs.normal(size=(n, nc)) if cplx else 0)).astype(dt)
+        X0 = None if rs.random() < 0.5 else (rs.normal(size=(n, nc)) + (1j * rs.normal(size=(n, nc)) if cplx else 0)).astype(dt)
+        zc = -1
+        if not div_small and rs.random() < 0.5:
+            zc = int(rs.integers(0, nc))
+            B[:, zc] = 0
+        lowprec += 1
+        try:
+            with np.errstate(all="ignore"):
+                x, _ = cg(cola.PSD(Dense(A)), B, x0=None if X0 is None else X0.copy(), tol=1e-5, max_iters=4 * n + 4)
+            x = np.asarray(x)
+            badl = []
+            if not np.all(np.isfinite(x)):
+                badl.append("non-finite solution in %s" % np.dtype(dt).name)
+            elif zc >= 0 and np.any(x[:, zc] != 0):
+                badl.append("zero right-hand-side column not returned as zero in %s" % np.dtype(dt).name)
+            else:
+                Bn = np.linalg.norm(B, axis=0)
+                rr = np.linalg.norm(A.astype(complex) @ x - B, axis=0) / np.where(Bn == 0, 1, Bn)
+                if np.any(rr > 1e-3):
+                    badl.append("relative residual %s in %s" % (rr.tolist(), np.dtype(dt).name))
+        except Exception as e:  # noqa
+            badl = ["raised %s: %s" % (type(e).__name__, str(e)[:100])]
+        if badl:
+            mism.append(dict(oracle_fail=True, case=dict(A=core_json(A.tolist()), B=core_json(B.tolist()), X0=None if X0 is None else core_json(X0.tolist()), dtype=np.dtype(dt).name),
+                             failed_clauses=badl, model_disagrees=False))
     # ---- statistics
     def hist(key, sel=None):
         h = {}
@@ -270,7 +343,7 @@ def run(ctx):
         samples=samples, mismatches=mism, findings=fnd,
         extra=dict(compared_in_coq=len(items), near_tie=len(nearset) + margin_ties, skipped_unstable=len(cases) - large - len(items) - margin_ties,
                    krylov_optimum_checked=opt_checked + large_opt, krylov_optimum_worst_distance=opt_worst,
-                   large_oracle_only=large, homogeneity_pairs=homog, inv_entry_point=invpath,
+                   large_oracle_only=large, homogeneity_pairs=homog, inv_entry_point=invpath, inv_with_1d_guess=x0vec, float32_complex64_cases=lowprec,
                    impl_exceptions=len(obs) - len(ok_obs),
                    stopped_by_tolerance=sum(1 for c, o in zip(cases, obs) if o.get("ok") and o["steps"] < c["max_iters"]),
                    stopped_by_max_iters=sum(1 for c, o in zip(cases, obs) if o.get("ok") and o["steps"] == c["max_iters"]),
